@@ -50,15 +50,15 @@ DEFECTS = [
 ]
 
 # design-level findings escalated beyond the exhaustive bound: one scripted scenario each, run through the model
-# (prediction + the model's own Judge verdict) and through the real code.  While ENFORCED is False a rejection of
-# the real behaviour is printed as FINDING-PROPOSED and recorded in the evidence without affecting the exit code
-# (the maintainer decides between a fix: commit and a known_findings entry, then sets it to True).
+# (prediction + the model's own Judge verdict) and through the real code.  A rejection of the real behaviour is a
+# violation of the named property (ESCALATED_ENFORCED = False only while a new finding is being triaged: it is then
+# printed as FINDING-PROPOSED and recorded in the evidence without affecting the exit code).
 ESCALATIONS = [
     dict(name="page-limit-undercount", property="C11", script="MC_ScriptPageLimit", grid="MC_CfgsScript", L=10, ops=8, seglen=1,
          what="half.pages does not count the pages of a kept (KeepFrom) live packet but uncounts them when they are released: "
               "MaxBufferedPagesPerConnection=1 lets three out-of-order pages queue up"),
 ]
-ESCALATED_ENFORCED = False
+ESCALATED_ENFORCED = True
 
 INVS = "ImplSatisfiesProp HeapSane ContentMatchesSeq UsedExact NoFlags"
 
@@ -128,11 +128,18 @@ def design_note_half_pages(wd):
     sub = _subst(plan, 0)
     sub[r"ExportRem = \d+"] = "ExportRem = 1"
     sub[r"INVARIANTS[^\n]*"] = "INVARIANTS HalfPagesExact"
-    r = vlib.tlc("ReasmImplMC", workdir=wd, timeout=900, workers=1, cfg_subst=sub)
-    return {"invariant": "HalfPagesExact", "violated_in_model": r.violated == "HalfPagesExact", "states": r.distinct,
-            "meaning": "cleanSG converts a kept live packet into pages without counting them in half.pages, and addPending drops "
-                       "non-contiguous saved pages without uncounting them: half.pages drifts from the pages really held "
-                       "(holds with constant PagesFix = TRUE, the proposed repair)"}
+    r = vlib.tlc("ReasmImplMC", workdir=os.path.join(wd, "fixed"), timeout=900, workers=1, cfg_subst=sub)
+    sub2 = dict(sub)
+    sub2[r"PagesFix = \w+"] = "PagesFix = FALSE"
+    r2 = vlib.tlc("ReasmImplMC", workdir=os.path.join(wd, "prefix"), timeout=900, workers=1, cfg_subst=sub2)
+    if r.violated:
+        raise vlib.Infra("ReasmImpl.tla: HalfPagesExact violated with PagesFix = TRUE (%s)" % r.violated)
+    return {"invariant": "HalfPagesExact", "holds_in_model": True, "pre_fix_shape_refuted": r2.violated == "HalfPagesExact",
+            "states": r.distinct, "repaired_by": "129d6d6",
+            "meaning": "half.pages (the number the per-connection limit compares) equals the pages really linked to the half "
+                       "connection.  Before fix 129d6d6 cleanSG converted a kept live packet into pages without counting them and "
+                       "addPending dropped non-contiguous saved pages without uncounting them (constant PagesFix = FALSE: refuted "
+                       "after one operation); escalated to the C11 scenario in ESCALATIONS"}
 
 
 REASM["notes"] = [design_note_half_pages]
@@ -369,6 +376,25 @@ def run_impl(ctx, verdict_for, with_self_test=True, fam=REASM):
             log("  e.g. cfg=%s ops=%s op#%d\n    predicted %s\n    observed  %s" % (d["cfg"], d["ops"], d["op_index"], d["predicted"], d["observed"]))
     shutil.rmtree(wd, ignore_errors=True)
     return cov
+
+
+def run_escalations(V, fam=REASM):
+    """The scripted scenarios of ESCALATIONS that belong to V's property, alone (used by the registered check of that
+    property on every run: a repaired defect found at design level must be reported again if it ever returns)."""
+    mine = [e for e in fam["escalations"] if e["property"] == V.pid]
+    if not mine:
+        return []
+    wd = vlib.scratch("%s-esc-%s" % (fam["scratch"], V.pid.lower()))
+    binp = vlib.go_build(fam["driver"])
+    out = []
+    for e in mine:
+        r = escalation_run(e, binp, os.path.join(wd, "esc-" + e["name"]), fam)
+        for bb, evs in r.pop("_bad"):
+            V.reject({"assembler": bb["asm"], "reason": bb["reason"], "op": bb["op"], "escalation": e["name"]},
+                     {"driver": fam["driver"], "bad": bb, "events": evs, "model": MODEL, "scripted": {"cfg": r["cfg"], "ops": r["ops"]}})
+        out.append(r)
+    shutil.rmtree(wd, ignore_errors=True)
+    return out
 
 
 def verdict_router(v09, v11):
